@@ -23,12 +23,15 @@ type hNotifier08 struct {
 	calls  int
 	at     []time.Time
 	crash  bool // the instance dies right after the receiver accepted, before recording
+	early  bool // ... or while the request is still on its way: the receiver never gets it
 	killed func()
 }
 
 func (n *hNotifier08) Notify(ctx context.Context, as ...*alert.Alert) (bool, error) {
-	n.calls++
-	n.at = append(n.at, time.Now())
+	if !(n.crash && n.early) {
+		n.calls++
+		n.at = append(n.at, time.Now())
+	}
 	if n.crash {
 		n.killed()
 		<-ctx.Done()
@@ -50,7 +53,8 @@ type hInstance08 struct {
 // runs the receiver's real stage (wait position x peer_timeout, dedup against its own
 // real notification log, notify, record) and gossips its log entry to the others
 // with an arbitrary delay, or loses it. An instance may die right after the receiver
-// accepted the notification, before recording it. (a) Whatever is lost or delayed and
+// accepted the notification, before recording it, or while its request was still on the way
+// (the receiver never got it). (a) Whatever is lost or delayed and
 // whoever crashes, at least one instance that stays up sends the notification. (b) If
 // every entry is delivered faster than the peer timeout, nobody crashes and no
 // later-positioned instance flushes before an earlier-positioned one, exactly one
@@ -105,6 +109,7 @@ func VerifC08_Cluster() {
 	}
 	// at most one instance dies after the receiver accepted
 	crasher := vfChoice("crasher", n+1) // n = nobody
+	diesEarly := crasher < n && vfBool("diesBeforeTheReceiverGotIt")
 	now := vfNow()
 	a := &alert.Alert{}
 	a.Labels = model.LabelSet{"alertname": "A"}
@@ -124,6 +129,7 @@ func VerifC08_Cluster() {
 		ctx, cancel := context.WithTimeout(context.Background(), 5*time.Minute+time.Duration(i)*peerTimeout)
 		if i == crasher {
 			inst.notifier.crash = true
+			inst.notifier.early = diesEarly
 			inst.notifier.killed = cancel
 		}
 		// the flush tick the context carries may lie before the moment the receiver's
